@@ -27,6 +27,14 @@ def values():
         for w in W0:
             yield [v, w]
             yield {'a': v, 'b': w}
+    for v in V0:
+        yield [[v]]
+        yield {'k': {'k': v}}
+        yield [{'k': [v]}]
+        yield {'k': [v, {'j': v}]}
+    yield 'x' * 10000
+    yield list(range(1000))
+    yield {str(i): i for i in range(200)}
     yield [[[[1]]]]
     yield {'a': {'b': {'c': [None]}}}
     yield {'': 1, 'é': 2, '\x00': 3}
@@ -78,7 +86,7 @@ def gen_cases(ctx):
     selems = [dict(id=1, result=None), dict(id=2, result=0), dict(id='1', result=[1]), dict(id=None, result='x'),
               dict(id=0, error=dict(code=-32601, message='nf', data=A)), dict(id=3, error=dict(code=0, message='', data=None)),
               dict(id=4, error=dict(code=7001, message='m', data=[1]))]
-    for n in range(0, ctx.pick(3, 4) + 1):
+    for n in range(0, ctx.pick(4, 5) + 1):
         for idx in itertools.permutations(range(len(relems)), n):
             yield dict(part='batchreq', elems=[relems[i] for i in idx])
         for idx in itertools.permutations(range(len(selems)), n):
@@ -353,7 +361,7 @@ def run(ctx):
                 'as params / result / error data; ids %r; methods %r; every registered code plus unregistered ones x '
                 'messages x data, deserialised with the default and with a custom base class; batches = all ordered '
                 'selections of <= %d of 5/7 element shapes; batch-level errors. state = one message; non-trivial = '
-                'carries a payload or an error' % (len(V0), len(list(values())), IDS, METHODS, ctx.pick(3, 4)))
+                'carries a payload or an error' % (len(V0), len(list(values())), IDS, METHODS, ctx.pick(4, 5)))
     ctx.assumptions += ['an empty BatchRequest is serialised but not deserialised (refused by design, see C06)',
                         'NaN / Infinity are not JSON values and are outside the alphabet']
     ctx.run_cases('C05', lambda: gen_cases(ctx), run_case, recheck_every=2003)
